@@ -65,11 +65,19 @@ class CLock(object):
         self.uid = CLock._count[0]
         self._name = None
 
-    def acquire(self, *a, **k):
+    def acquire(self, blocking=True, timeout=-1):
         c = self.ctl
+        if blocking and timeout == -1:
+            if c is not None:
+                c.before(self, "acq")
+            return self.real.acquire()
+        # try-lock (acquire(False) / acquire(blocking=False)) or timed acquire: an operation of its own with a
+        # scheduling point BEFORE the attempt; always runnable; its result (got | busy) is fixed at the moment the
+        # scheduler grants it (nobody else runs until the next yield, so a timed wait cannot change the outcome
+        # either).  The model has no try-lock: `got` replays as an acquire, `busy` is an operation it does not know.
         if c is not None:
-            c.before(self, "acq")
-        return self.real.acquire(*a, **k)
+            c.before(self, "try")
+        return self.real.acquire(False)
 
     def release(self):
         c = self.ctl
@@ -201,19 +209,38 @@ class LockCtl(object):
         raise NotImplementedError
 
 
-class LineMode(object):
-    """Line-level preemption restricted to ONE code object (YowLayer.toLower): sys.monitoring LINE events of that
-    code object only, each a scheduling point (no model step).  Makes check-then-act races inside toLower itself
-    schedulable even when no lock / queue operation separates the steps."""
+def yowlayer_codes(helpers):
+    """code objects that get line-level yields: YowLayer.toLower, and with `helpers` every function defined on
+    YowLayer (yowsup/layers/__init__.py, qualname YowLayer.*) that toLower can reach by name (transitive closure
+    over co_names; name-mangled private helpers like _YowLayer__sendLower included)"""
+    import yowsup.layers as L
+    funcs = dict((n, f) for n, f in vars(L.YowLayer).items()
+                 if callable(f) and hasattr(f, "__code__") and
+                 getattr(f.__code__, "co_qualname", "YowLayer." + n).startswith("YowLayer."))
+    todo, seen = ["toLower"], []
+    while todo:
+        n = todo.pop()
+        if n in seen or n not in funcs:
+            continue
+        seen.append(n)
+        if helpers:
+            todo.extend(x for x in funcs[n].__code__.co_names if x in funcs and x not in seen)
+    return [funcs[n].__code__ for n in seen]
 
-    def __init__(self, ctl):
+
+class LineMode(object):
+    """Line-level preemption restricted to YowLayer.toLower (and, escalated, the YowLayer helpers it calls):
+    sys.monitoring LINE events of those code objects only, each a scheduling point (no model step).  Makes
+    check-then-act races inside toLower itself schedulable even when no lock / queue operation separates the steps."""
+
+    def __init__(self, ctl, helpers=False):
         self.ctl = ctl
-        self.code = None
+        self.helpers = helpers
+        self.codes = []
 
     def __enter__(self):
-        import yowsup.layers as L
         mon = sys.monitoring
-        self.code = L.YowLayer.toLower.__code__
+        self.codes = yowlayer_codes(self.helpers)
         self.tool = mon.PROFILER_ID
         mon.use_tool_id(self.tool, "c11-line")
         ctl = self.ctl
@@ -221,14 +248,16 @@ class LineMode(object):
         def cb(code, line):
             ctl.line(line)
         mon.register_callback(self.tool, mon.events.LINE, cb)
-        mon.set_local_events(self.tool, self.code, mon.events.LINE)
+        for code in self.codes:
+            mon.set_local_events(self.tool, code, mon.events.LINE)
         ctl.line_mode = True
         return self
 
     def __exit__(self, *a):
         mon = sys.monitoring
         self.ctl.line_mode = False
-        mon.set_local_events(self.tool, self.code, 0)
+        for code in self.codes:
+            mon.set_local_events(self.tool, code, 0)
         mon.register_callback(self.tool, mon.events.LINE, None)
         mon.free_tool_id(self.tool)
 
@@ -262,6 +291,7 @@ class HSched(object):
         self.draining = False
         self.lock_uids = {}       # site name -> set of distinct lock objects acquired under that name
         self.lock_created = 0     # locks created by scheduled threads during the run
+        self.unknown_ops = 0      # operations the model does not know (busy try-locks)
 
     def tid(self):
         return self.tids.get(threading.get_ident())
@@ -375,6 +405,13 @@ class HSched(object):
                 rec, _, lk = self.pending.pop(tid)
                 if rec[1] == "acq" and lk is not None:
                     self.lock_uids.setdefault(rec[2], set()).add(lk.uid)
+                elif rec[1] == "try" and lk is not None:
+                    if lk.real.locked():
+                        rec[3] = "busy"
+                        self.unknown_ops += 1
+                    else:
+                        rec[3] = "got"
+                        self.lock_uids.setdefault(rec[2], set()).add(lk.uid)
                 elif rec[1] == "mklock":
                     self.lock_created += 1
                 self.options.append(len(runnable))
@@ -402,6 +439,8 @@ class HCtl(LockCtl):
             return
         if kind == "acq":
             s.yield_("acq", name, (lambda: not lk.real.locked()), lock=lk)
+        elif kind == "try":
+            s.yield_("try", name, None, lock=lk)
         else:
             s.yield_(kind, name)
 
@@ -570,7 +609,7 @@ class HsBench(object):
         P = self.rig.m["ProtocolTreeNode"]
         return P("iq", {"id": "t%d-%d" % (tid, k), "type": "get", "xmlns": "w", "to": "s.whatsapp.net"})
 
-    def run(self, senders, chooser, line=False):
+    def run(self, senders, chooser, line=False, helpers=False):
         """senders: per application thread the list of entry nodes of its sends (6 = top.send, 5 = coder.send).
         Harness thread ids: 0 = environment, 1..n = senders, n+1 = the adopted handshake worker."""
         rig = self.rig
@@ -614,7 +653,7 @@ class HsBench(object):
         self.h.sched = s
         try:
             if line:
-                with LineMode(self.h):
+                with LineMode(self.h, helpers):
                     s.run(fns)
             else:
                 s.run(fns)
@@ -690,6 +729,15 @@ def hs_oracle(bench, senders, s):
     return probs, p
 
 
+def hs_probe_further_send(bench):
+    """one more send through the idle stack (unscheduled); what the peer has decrypted afterwards"""
+    try:
+        bench.rig.coder.send(bench.node(90, 0))
+    except Exception as e:
+        return ["probe raised %s" % e.__class__.__name__]
+    return [i for i in bench.peer()["ids"]]
+
+
 def model_args(bench, senders, s):
     """(opss, schedule, real events) for run_c11h.  Model thread 0 = handshake worker, i = sender i, n+1 = the
     environment thread (only the replies it sends while flushing the incoming buffer are model steps)."""
@@ -710,6 +758,8 @@ def model_args(bench, senders, s):
         sched.append(bench.model_tid(tid))
         if kind == "nsend":
             real.append([7, 0 if note == "ok" else 1])
+        elif kind == "try":
+            real.append([1 if note == "got" else 9, LOCKNODE_H.get(obj, 0)])
         else:
             real.append([EVH.get(kind, 99), LOCKNODE_H.get(obj, 0) if kind in ("acq", "rel") else 0])
     return opss, sched, real
@@ -743,7 +793,7 @@ def hs_model_check(model, bench, senders, s, peer):
         for i, (a, b) in enumerate(zip(evs, real)):
             if a != b:
                 diffs.append("event %d of model thread %d: impl=%s model=%s (1 acq 2 rel 3 put 4 get 5 write 6 flip "
-                             "7 nsend[0 ok|1 raise]; 0 = not enabled in the model)" % (i, sched[i], b, a))
+                             "7 nsend[0 ok|1 raise] 9 busy try-lock = unknown to the model; 0 = not enabled in the model)" % (i, sched[i], b, a))
                 break
     diffs.extend(lock_identity_diffs(s.lock_uids))
     if s.stuck and not s.stuck.startswith("deadlock"):
